@@ -58,24 +58,39 @@ Theorem C20_partial_strong : forall cfg k cap buf0 req fr,
   async_handle cfg k cap buf0 req fr = handle cfg k cap req fr.
 Proof. exact async_handle_eq. Qed.
 
+(* The model is written over a [shape]: four yes/no facts the translator reads off the source on every run
+   (gate tests the capacity? gate exempts FORGET? async_write has its size gate? async_commit returns early
+   on an unbuffered writer?).  [async_handle] = [async_handle_gen code_shape].  For the shape the three
+   patches of /verif/fixes/C20-*.patch produce, the defect class is empty and the full statement holds: *)
+Theorem C20_full_after_fixes : forall cfg k cap buf0 req fr,
+  async_expressible fr = true ->
+  observable k (async_handle_gen fixed_shape cfg k cap buf0 req fr) = observable k (handle cfg k cap req fr).
+Proof. intros. rewrite async_handle_fixed_eq by assumption. reflexivity. Qed.
+
+(* and for every shape: equality outside that shape's class *)
+Theorem C20_partial_any_shape : forall sh cfg k cap buf0 req fr,
+  async_expressible fr = true -> known_class_gen sh cfg k cap req fr = false ->
+  async_handle_gen sh cfg k cap buf0 req fr = handle cfg k cap req fr.
+Proof. exact async_handle_gen_eq. Qed.
+
 (* the pieces, usable on their own *)
 (* dispatch: every async handler makes the same filesystem calls with the same arguments as its sync twin and
    takes the corresponding reply action; every other opcode runs the sync handler itself *)
-Theorem C20_dispatch_equiv : forall cfg h ctx r fr wcap,
-  async_expressible fr = true -> (h_opcode h = 16 -> big_write r = false) ->
-  dec_to_sync (async_handler cfg h ctx r fr wcap) = handler cfg h ctx r fr wcap.
+Theorem C20_dispatch_equiv : forall sh cfg h ctx r fr wcap,
+  async_expressible fr = true -> (h_opcode h = 16 -> (sh_write_gate sh && big_write r) = false) ->
+  dec_to_sync (async_handler sh cfg h ctx r fr wcap) = handler cfg h ctx r fr wcap.
 Proof. exact async_handler_rel. Qed.
 
 (* reply helpers: async_reply_ok / async_do_reply_error / the split read reply produce the same writes as
    reply_ok / do_reply_error / the sync read reply, except an error reply on the unsplit fusedev writer *)
-Theorem C20_reply_helpers_equiv : forall k cap buf0 u a,
-  k = Virtio \/ is_unsplit_err a = false \/ cap < 16 ->
-  async_perform k cap buf0 u a = perform k cap u (to_sync a).
+Theorem C20_reply_helpers_equiv : forall sh k cap buf0 u a,
+  k = Virtio \/ is_unsplit_err a = false \/ cap < 16 \/ sh_commit_skips sh = true ->
+  async_perform sh k cap buf0 u a = perform k cap u (to_sync a).
 Proof. exact aperform_eq. Qed.
 
 (* and exactly what that exception emits *)
-Theorem C20_stale_rewrite_shape : forall cap buf0 u e, 16 <= cap ->
-  o_packets (aperform_err buf0 (fresh FuseDev cap) u e None) = [out_header OUT_HDR (neg32 e) u; firstn 16 buf0].
+Theorem C20_stale_rewrite_shape : forall sh cap buf0 u e, sh_commit_skips sh = false -> 16 <= cap ->
+  o_packets (aperform_err sh buf0 (fresh FuseDev cap) u e None) = [out_header OUT_HDR (neg32 e) u; firstn 16 buf0].
 Proof. exact aperform_err_fusedev_stale. Qed.
 
 Theorem C20_async_no_panic : forall cfg k cap buf0 req fr,
@@ -84,7 +99,7 @@ Proof. exact async_handle_no_panic. Qed.
 
 (* the model's table, gate and commit are the translated ones *)
 Theorem C20_table_is_the_code :
-  list2_eqb (sort2 ((26, false) :: map fst async_handlers))
+  list2_eqb (sort2 ((26, false) :: map fst (async_handlers code_shape)))
             (sort2 (map (fun e => (fst (fst e), snd e)) Gen.RustAsyncDispatch.rust_async_dispatch)) = true.
 Proof. exact async_table_matches. Qed.
 
@@ -115,6 +130,8 @@ Print Assumptions C20_refuted_write_size.
 Print Assumptions C20_refuted_stale_rewrite.
 Print Assumptions C20_partial.
 Print Assumptions C20_partial_strong.
+Print Assumptions C20_full_after_fixes.
+Print Assumptions C20_partial_any_shape.
 Print Assumptions C20_dispatch_equiv.
 Print Assumptions C20_reply_helpers_equiv.
 Print Assumptions C20_stale_rewrite_shape.
